@@ -8,13 +8,18 @@ def run(ctx):
     if ctx.quick():
         pairs = [c for c in cases if c["kind"] == "pair"]
         cases = [c for c in cases if c["kind"] != "pair"] + ctx.rng.sample(pairs, 600)
+    # beat units beyond 32 bits: 2^k + d around the powers of two where whole numbers stop being representable as floats
+    for k in (31, 40, 52, 53, 54, 55, 56, 64, 65, 100, 200, 1000):
+        for d in (-8, -4, -2, -1, 0, 1, 2, 4, 6, 8):
+            cases.append({"kind": "bigunit", "k": k, "d": d, "f": False})
+        cases.append({"kind": "bigunit", "k": k, "d": 0, "f": True})
     ctx.exhaustive = not ctx.quick()
-    ctx.bounds = {"quick": "all 80 vocabulary values (10 bases x dots 0..4, triplet/quintuplet/septuplet); 10 perturbations within 1% of every undotted / single-dotted value; 600 sampled ordered pairs for add/subtract; beat units -8..300, powers of two to 4096, 21 float units (1.0 and every power of two to 128.0 among them); counts -3..24 x 14 units",
+    ctx.bounds = {"quick": "all 80 vocabulary values (10 bases x dots 0..4, triplet/quintuplet/septuplet); 10 perturbations within 1% of every undotted / single-dotted value; 600 sampled ordered pairs for add/subtract; beat units -8..300, powers of two to 4096, 21 float units (1.0 and every power of two to 128.0 among them); counts -3..24 x 14 units; whole-number units 2^k + d for 12 k from 31 to 1000 and |d| <= 8",
                   "thorough": "all 6400 ordered pairs; beat units up to 3000"}[t]
     ctx.rule = ("TLC-enumerated (Gen_C09); values are built with the library's own constructors from the descriptor; distinct = distinct (operation, arguments); "
                 "non-trivial = dotted/tuplet/perturbed value, or a beat unit that is not a power of two, or a non-positive count")
     ctx.nontrivial = lambda r: (("v" in r["in"] and (r["in"]["v"]["d"] > 0 or r["in"]["v"]["r"] != [1, 1] or r["in"].get("p", 0) != 0))
-                                or "a" in r["in"] or ("u" in r["in"] and (r["in"]["u"][1] != 1 or r["in"]["u"][0] not in (1, 2, 4, 8, 16, 32))))
+                                or "a" in r["in"] or "k" in r["in"] or ("u" in r["in"] and (r["in"]["u"][1] != 1 or r["in"]["u"][0] not in (1, 2, 4, 8, 16, 32))))
     ctx.assumptions.append("float results are compared in integer ticks (1/215040 whole note) with a tolerance of 1e-9 whole note; non-termination is decided by a 2 s alarm")
     recs = ctx.execute("c09", cases, orders=2)
     ctx.validate("Trace_C09", recs, driver="c09")
